@@ -6,48 +6,12 @@ use crate::gen::{libgen, mutate, svgen};
 use crate::sv::{self, check_tiling, clip, first_diff, skeleton, Error, Grammar, RawTree};
 use crate::tape::Tape;
 use serde_json::json;
-use sv_parser_parser::{lib_parser, lib_parser_incomplete, sv_parser, sv_parser_incomplete, Span, SpanInfo};
 
 pub struct C15;
 
 const JUNK: &[&str] = &[")", "]", "}", "\u{1}", "end", "endcase", "join", ") ) )", "end end", "§"];
 
-fn raw(g: Grammar, text: &str, incomplete: bool) -> Option<(RawTree, usize)> {
-    let span = Span::new_extra(text, SpanInfo::default());
-    match (g, incomplete) {
-        (Grammar::Sv, false) => sv_parser(span).ok().map(|(r, x)| (RawTree::Sv(x), text.len() - r.fragment().len())),
-        (Grammar::Sv, true) => sv_parser_incomplete(span).ok().map(|(r, x)| (RawTree::Sv(x), text.len() - r.fragment().len())),
-        (Grammar::Lib, false) => lib_parser(span).ok().map(|(r, x)| (RawTree::Lib(x), text.len() - r.fragment().len())),
-        (Grammar::Lib, true) => lib_parser_incomplete(span).ok().map(|(r, x)| (RawTree::Lib(x), text.len() - r.fragment().len())),
-    }
-}
-
-/// Raw parse under a given memo configuration (the thread's configuration is restored afterwards).
-fn raw_cfg(g: Grammar, text: &str, incomplete: bool, capacity: Option<usize>, rec_key: bool) -> Option<(RawTree, usize)> {
-    sv::hooks::set_capacity(capacity);
-    sv::hooks::set_key_includes_recursion_flags(rec_key);
-    let r = raw(g, text, incomplete);
-    sv::hooks::set_capacity(sv::hooks::DEFAULT_CAPACITY);
-    sv::hooks::set_key_includes_recursion_flags(false);
-    r
-}
-
-/// Does listed finding K3 touch one of the parses this case consists of? True iff for one of them the production
-/// configuration (capacity 1024, production key) gives a result that differs from the unbounded table's, while the
-/// unbounded table gives the same result under both keys (the signature used by C02 / C12, per parse).
-fn k3_touches(g: Grammar, parses: &[(&str, bool)]) -> bool {
-    for (text, incomplete) in parses {
-        let production = raw_cfg(g, text, *incomplete, sv::hooks::DEFAULT_CAPACITY, false);
-        let unbounded = raw_cfg(g, text, *incomplete, None, false);
-        if production != unbounded {
-            let aware = raw_cfg(g, text, *incomplete, None, true);
-            if aware == unbounded {
-                return true;
-            }
-        }
-    }
-    false
-}
+use crate::sv::{k3_touches, raw_mode as raw};
 
 /// `check_incomplete_inner`, with a failure re-judged against listed finding K3 (if `k3_listed`): the four parses a
 /// case compares (incomplete and strict on the whole text, strict on the covered prefix, incomplete with junk appended)
